@@ -640,7 +640,10 @@ fn judge_store(p: &Plan) -> Verdict {
 }
 fn judge_store_on(fx: &Fixture, p: &Plan) -> Verdict {
   let mut v = Verdict::default();
-  let entry = ENTRY[p.entry];
+  let entry_name = ENTRY[p.entry];
+  // create_credential_jwt / create_presentation_jwt are documented to sign through the same options as create_jws:
+  // one key prefix for all three (the entry actually called is in the description), so that one defect has one key
+  let entry = "JwkDocumentExt::create_jws*";
   let m = p.method;
   let other = (m + 1) % 3;
   // ---- options
@@ -685,7 +688,7 @@ fn judge_store_on(fx: &Fixture, p: &Plan) -> Verdict {
     1 => credential().serialize_jwt(None).expect("serialize_jwt").into_bytes(),
     _ => presentation().serialize_jwt(&JwtPresentationOptions::default()).expect("serialize_jwt").into_bytes(),
   };
-  let what = format!("{entry} for #{} with {o:?}, payload {:?}", FRAGS[m], String::from_utf8_lossy(&payload));
+  let what = format!("{entry_name} for #{} with {o:?}, payload {:?}", FRAGS[m], String::from_utf8_lossy(&payload));
   // ---- produce
   fx.storage.key_storage().signed.borrow_mut().clear();
   let produced: Result<Result<String, String>, vx::Panicked> = guard(|| {
@@ -702,11 +705,11 @@ fn judge_store_on(fx: &Fixture, p: &Plan) -> Verdict {
   let token = match produced {
     Err(pn) => {
       v.v(format!("{entry}|{}", pn.key()), format!("{what}: {}", pn.msg));
-      v.outcome = format!("store:{entry}:panic");
+      v.outcome = format!("store:{entry_name}:panic");
       return v;
     }
     Ok(Err(kind)) => {
-      v.outcome = format!("store:{entry}:refused:{kind}:{shape}");
+      v.outcome = format!("store:{entry_name}:refused:{kind}:{shape}");
       return v;
     }
     Ok(Ok(t)) => t,
@@ -720,7 +723,7 @@ fn judge_store_on(fx: &Fixture, p: &Plan) -> Verdict {
   if p.custom >= 2 {
     // custom parameters that shadow registered ones: executed and recorded, not judged
     v.outcome = format!(
-      "store:{entry}:signed:{}(recorded-only):{}",
+      "store:{entry_name}:signed:{}(recorded-only):{}",
       CUSTOM[p.custom],
       match decoded {
         Ok(Ok(_)) => "decodes",
@@ -733,12 +736,12 @@ fn judge_store_on(fx: &Fixture, p: &Plan) -> Verdict {
   let item = match decoded {
     Err(pn) => {
       v.v(format!("{entry}|own-decoder-{}", pn.key()), format!("{what}: token {token}: {}", pn.msg));
-      v.outcome = format!("store:{entry}:signed:decoder-panic");
+      v.outcome = format!("store:{entry_name}:signed:decoder-panic");
       return v;
     }
     Ok(Err(e)) => {
       v.v(format!("{entry}|token-rejected-by-own-decoder"), format!("{what}: token {token}: {e}"));
-      v.outcome = format!("store:{entry}:signed:own-decoder-rejects");
+      v.outcome = format!("store:{entry_name}:signed:own-decoder-rejects");
       return v;
     }
     Ok(Ok(item)) => item,
@@ -883,7 +886,7 @@ fn judge_store_on(fx: &Fixture, p: &Plan) -> Verdict {
       v.v("CoreDocument::verify_jws|accepted|other-document-same-ids", format!("{what}: token {token}"));
     }
   }
-  v.outcome = format!("store:{entry}:signed:{shape}:kid={}:accepting-verifications={accepted}", KID[p.kid]);
+  v.outcome = format!("store:{entry_name}:signed:{shape}:kid={}:accepting-verifications={accepted}", KID[p.kid]);
   v
 }
 
